@@ -323,6 +323,10 @@ def gen_build_case(rng, idx, tier):
 
 
 FIXED_CASES = [
+    # chain whose root key (RSA-4096) and signing key (RSA-2048) differ in size: CertBlockV1.signature_size is the ROOT's
+    {"kek": "5a" * 32, "dek": "01" * 32, "mac": "02" * 32, "nonce": "10" * 12 + "00000000", "pad": "00" * 8, "ts": 1600000000,
+     "pv": "1.0.0", "cv": "2.0.0", "build": 3, "flags": 0x0008, "chain": "mixed4096_2048", "rkh_index": 0, "rkh_fill": 0, "cb_build": 0,
+     "secs": [{"uid": 1, "hmac": 1, "zero": 1, "cmds": [[2, 0x2000, 0, "0102030405", 1], [8]]}]},
     # the D16 witness: two sections, flags without the SHA bit, product != component version
     {"kek": bytes(range(32)).hex(), "dek": "a0" * 32, "mac": "0b" * 32, "nonce": bytes(range(16)).hex(), "pad": "00" * 8, "ts": 1580000000,
      "pv": "1.2.3", "cv": "4.5.6", "build": 7, "flags": 0x0008, "chain": "r2048", "rkh_index": 0, "rkh_fill": 0, "cb_build": 0,
@@ -406,11 +410,16 @@ def rom_cmd_value(c):
 THEOREM_FILES = ["cmd_roundtrip", "rom_cmd_decodes", "cmd_stream_roundtrip", "header_roundtrip", "layouts_agree",
                  "counter_agreement", "hmac_groups_cover", "keyblob_unwraps", "rom_section_decodes",
                  "rom21_build_except_known", "rom21_build_fixed", "rom21_build_sha_refuted", "sections_all", "coverage21",
-                 "parse21_first_section", "parse21_refuted"]
+                 "parse21_first_section", "parse21_refuted", "parse21_accepts_only_verified"]
 
 
 def run(tier):
     rep = vlib.Report(PID, tier)
+    import time as _t
+    t0 = _t.time()
+
+    def lap(what):
+        vlib.log(f"  [{_t.time() - t0:6.1f} s] {what}")
     rng = vlib.Rng(vlib.seed())
     thorough = tier == "thorough"
     os.makedirs(KEYDIR, exist_ok=True)
@@ -422,11 +431,12 @@ def run(tier):
         rep.obligation("translate:spsdk/sbfile/sb2/*.py->Gen/GenSb2.v", False, repr(ex))
     # (P) proofs
     model_ok, mout = vlib.coq_make(["Model/Sb2Model.vo"])
-    theorems = [t for t in THEOREM_FILES if os.path.exists(os.path.join(vlib.COQ, "Props", PID, t + ".v"))]
+    theorems = list(THEOREM_FILES)
     vlib.check_theorems(rep, PID, theorems, ["Proofs/Sb2Proofs.vo"])
     if thorough:
         vlib.coqchk(rep, PID, theorems)
     vlib.audit(rep)
+    lap("proofs checked")
 
     # ------------------------------------------------------------------ cases
     nfiles = 220 if thorough else 36
@@ -468,6 +478,7 @@ def run(tier):
             opmap.append((i, p, bytes(d)))
     res2 = vlib.run_impl("c04_impl.py", {"keydir": KEYDIR, "need_chains": [], "ops": ops2}, timeout=3000)["results"]
 
+    lap("implementation: files built and parsed")
     # ------------------------------------------------------------------ oracles on the implementation's output
     n_build_ok = 0
     sig_of = {}
@@ -475,6 +486,9 @@ def run(tier):
         ex = b["export"]
         if ex[0] != "ok":
             if case_valid(case):
+                cinf = chain_info[case["chain"]]
+                if ex[1] == 1 and cinf["leaf_size"] != cinf["sig_size"]:
+                    continue       # chain with keys of different sizes refused with an SPSDK error: nothing was built
                 nonce = bytes.fromhex(case["nonce"])
                 if ex[1] == 2 and int.from_bytes(nonce[12:], "little") > (1 << 32) - 4096:
                     continue       # counter wrap: Counter.value raises OverflowError (C09/C17 topic, no file is produced)
@@ -487,6 +501,7 @@ def run(tier):
         ci = chain_info[case["chain"]]
         pub = (int(ci["n"]), ci["e"])
         sha = bool(case["flags"] & SHA_BIT)
+        mixed = ci["leaf_size"] != ci["sig_size"]     # signing key and root key of different sizes (known class C04-F3)
         # --- the independent ROM reference processes the file and sees exactly what was given
         r = None
         try:
@@ -496,9 +511,11 @@ def run(tier):
             sig = "rom21:rejects:" + what.split(":")[0].replace(" ", "-")
             if what.startswith("block counts") and sha:
                 sig = "rom21:rejects:block-counts:sha-flag"
+            if mixed:
+                sig = "rom21:rejects:sig-size-mismatch"
             verdict = rep.failing(sig, f"the ROM reference cannot process the file SPSDK built ({what}); flags {case['flags']:#x}",
                                   {"kind": "build+rom", "case": case, "file_len": len(data), "hdr": b["hdr"], "reject": what})
-            if verdict == "known":
+            if verdict == "known" and not mixed:
                 try:      # keep looking for anything else in this file
                     r = py_rom21(data, bytes.fromhex(case["kek"]), pub, structural=True)
                 except RomReject as rr2:
@@ -528,14 +545,14 @@ def run(tier):
                 rep.failing("rom21:decoded-content-differs", "the ROM reference decodes something else than was given: " + "; ".join(problems),
                             {"kind": "build+rom", "case": case, "file": ex[1]})
         # --- header block counts describe the file (independent of the ROM walk)
-        sec_start = 208 + cb["raw_size"] + (32 if sha else 0) + cb["sig_size"]
+        sec_start = 208 + cb["raw_size"] + (32 if sha else 0) + ci["leaf_size"]
         if b["hdr"]["image_blocks"] * 16 != len(data) or b["hdr"]["first_boot_tag_block"] * 16 != sec_start:
-            rep.failing("header:block-counts:" + ("sha-flag" if sha else "no-sha"),
+            rep.failing("header:block-counts:" + ("sig-size-mismatch" if mixed else "sha-flag" if sha else "no-sha"),
                         f"header says image_blocks*16 = {b['hdr']['image_blocks'] * 16}, first_boot_tag_block*16 = "
                         f"{b['hdr']['first_boot_tag_block'] * 16}; the file has {len(data)} bytes and its first section starts at {sec_start}",
                         {"kind": "build", "case": case, "hdr": b["hdr"], "file_len": len(data)})
         if b["raw_size"] != len(data):
-            rep.failing("raw_size:" + ("sha-flag" if sha else "no-sha"), f"BootImageV21.raw_size = {b['raw_size']} but export() returned {len(data)} bytes",
+            rep.failing("raw_size:" + ("sig-size-mismatch" if mixed else "sha-flag" if sha else "no-sha"), f"BootImageV21.raw_size = {b['raw_size']} but export() returned {len(data)} bytes",
                         {"kind": "build", "case": case})
     # --- SPSDK's own parser
     n_parse_ok = n_parse_rej = 0
@@ -548,7 +565,8 @@ def run(tier):
             if r[1] == 3:
                 rep.failing("parse21:hang", "BootImageV21.parse did not terminate", {"kind": "parse", "case": case, "mutation": p})
             elif pristine:
-                rep.failing("parse21:rejects-own-output", f"BootImageV21.parse raised on the file SPSDK just built ({r[1:]})",
+                cinf = chain_info[case["chain"]]
+                rep.failing("parse21:rejects-own-output" + (":sig-size-mismatch" if cinf["leaf_size"] != cinf["sig_size"] else ""), f"BootImageV21.parse raised on the file SPSDK just built ({r[1:]})",
                             {"kind": "parse", "case": case})
             continue
         n_parse_ok += 1
@@ -621,6 +639,7 @@ def run(tier):
         if len(e) != r["raw_size"] or len(e) % 16:
             rep.failing(f"cmd:raw-size:tag{c[0]}", f"command {c}: raw_size {r['raw_size']} but export has {len(e)} bytes", {"kind": "cmd", "cmd": c})
 
+    lap("oracles applied")
     # ------------------------------------------------------------------ (T2) correspondence with the Coq model
     if model_ok:
         try:
@@ -769,6 +788,7 @@ def run(tier):
         rep.obligation("correspondence:model builds", False, mout[-1500:])
         n_model = 0
 
+    lap("model evaluated")
     # ------------------------------------------------------------------ coverage accounting
     nsha = sum(1 for c, b in zip(cases, built) if b["export"][0] == "ok" and c["flags"] & SHA_BIT)
     nmulti = sum(1 for c, b in zip(cases, built) if b["export"][0] == "ok" and len(c["secs"]) > 1)
